@@ -91,6 +91,15 @@ fn interesting_fields_once(kind: u32, img_len: usize) -> Vec<(usize, usize)> {
 
 fn choose_value(cur: u64, width: usize, choice: u8, r: u32, len_hint: u64) -> u64 {
     let mask = if width >= 8 { u64::MAX } else { (1u64 << (8 * width)) - 1 };
+    // Values at which a product with a typical element size (3, 24, 40, 64)
+    // wraps around the field's width: count * elem overflows to something small.
+    const WRAP16: [u64; 6] = [0x5556, 0x5557, 0xAAAB, 0xAAAC, 0x0AAB, 0x0667];
+    const WRAP32: [u64; 10] = [0x5555_5556, 0xAAAA_AAAB, 0x0AAA_AAAB, 0x0666_6667, 0x0400_0000, 0x0400_0001, 0x0CCC_CCCD, 0x8000_0001, 0x1000_0000, 0x0800_0000];
+    if choice >= 232 {
+        let mask = if width >= 8 { u64::MAX } else { (1u64 << (8 * width)) - 1 };
+        let v = if width <= 2 { WRAP16[(r as usize) % WRAP16.len()] } else { WRAP32[(r as usize) % WRAP32.len()] };
+        return v & mask;
+    }
     let v = match choice % 24 {
         0 => 0,
         1 => 1,
@@ -272,7 +281,14 @@ pub fn tag_spec(max_tweaks: usize) -> impl Strategy<Value = TagSpec> {
         ],
         prop_oneof![8 => Just(Vec::new()), 2 => proptest::collection::vec(any::<u8>(), 1..24)],
     )
-        .prop_map(|(kind, n, sel, key, tweaks, extra)| TagSpec { kind, n, sel, key, tweaks, extra })
+        .prop_map(|(kind, n, mut sel, key, tweaks, extra)| {
+            // framebuffer: the three defined type bytes in 3 of 4 cases (the
+            // unknown ones have no colour-info logic to attack)
+            if kind == 8 && (sel >> 8) & 3 != 0 {
+                sel = (sel & !0xff) | ((sel & 0xff) % 3);
+            }
+            TagSpec { kind, n, sel, key, tweaks, extra }
+        })
 }
 
 pub fn mbi_spec(max_tags: usize, max_tweaks: usize) -> impl Strategy<Value = MbiSpec> {
